@@ -4,4 +4,4 @@ set -e
 cd /verif/ocaml
 coqc -Q ../coq/theories SE ../coq/extraction/Extract.v >/dev/null 2>extract.err || { cat extract.err; exit 1; }
 rm -f extract.err
-ocamlfind ocamlopt -O3 -w -a model.mli model.ml driver.ml -o driver 2>/dev/null || ocamlfind ocamlopt -w -a model.mli model.ml driver.ml -o driver
+ocamlfind ocamlopt -package unix -linkpkg -O3 -w -a model.mli model.ml driver.ml -o driver 2>/dev/null || ocamlfind ocamlopt -package unix -linkpkg -w -a model.mli model.ml driver.ml -o driver
